@@ -947,8 +947,18 @@ func restarts(n *cnode, hs1 []uint64, chainOf []built) {
 		if _, _, _, changed := versionChanged(chainOf, mkCfg(hs2)); !changed {
 			// same versions for all existing blocks: everything stored must still read back as written
 			if d := readBack(n, hs1, chainOf, "after-restart"); d != "" {
-				run.Fail("after a restart that keeps the version of every existing block: "+d,
-					map[string]interface{}{"heights_before": hs1, "heights_after": hs2, "best_block": best})
+				rep := map[string]interface{}{"heights_before": hs1, "heights_after": hs2, "best_block": best, "stored_record_kind": rec.kind, "stored_record": string(rec.json)}
+				switch {
+				case rec.bad:
+					// the unreadable record skipped CheckCompatibility and with it validate(): a configuration whose heights are not
+					// in order runs, IsV2Fork (receipt format) and Version then disagree for existing blocks
+					run.FailKnown("after a restart on an unreadable hardfork record (compatibility check and validation skipped): "+d,
+						"C19-hardfork-new-fork-height-at-or-below-best-accepted", rep)
+				case rec.json == nil:
+					run.Count("readback-differs-without-stored-record") // no record although blocks exist: not a state a node produces
+				default:
+					run.Fail("after a restart that keeps the version of every existing block: "+d, rep)
+				}
 			}
 			// and the chain goes on
 			if _, ok := buildBlock(n, hs2, best+1); ok {
